@@ -93,9 +93,13 @@ type Options struct {
 	// DeterminismEvery: every n-th discovered state is replayed a second
 	// time and must give the same canonical key.
 	DeterminismEvery int
-	// Known reports whether a violation is a recorded finding (the branch is
-	// pruned, the run continues, it is not counted as a violation).
+	// Known reports whether a violation is a recorded finding (it is not
+	// counted as a violation and the run continues).
 	Known func(v Violation) bool
+	// ExploreBeyondKnown: keep exploring the state reached by a transition
+	// whose only violations are recorded findings (otherwise the branch is
+	// pruned there).
+	ExploreBeyondKnown bool
 }
 
 type key [16]byte
@@ -239,10 +243,16 @@ func Explore[E any](sys System[E], opt Options) *Result[E] {
 						atomic.AddInt64(&transitions, 1)
 						if len(vs) > 0 {
 							hh := append(append([]E{}, h...), ev)
+							unknown := false
 							for _, v := range vs {
 								record(v, hh)
+								if opt.Known == nil || !opt.Known(v) {
+									unknown = true
+								}
 							}
-							continue // pruned
+							if unknown || !opt.ExploreBeyondKnown {
+								continue // pruned
+							}
 						}
 						canon := in.Canon()
 						if !seen.add(hashKey(canon)) {
